@@ -30,7 +30,7 @@ CHUNK = 128
 KINDS = ['pass', 'fail', 'error', 'skip_dec', 'skip_cls', 'skip_setup',
          'skip_body', 'xfail', 'uxs', 'sub:1,0,1', 'sub:1,1,0', 'setup_err',
          'teardown_err', 'body+teardown', 'cleanup_err', 'sysexit',
-         'sub_skip', 'redir_sub_fail', 'swap_fail']
+         'sub_skip', 'redir_sub_fail', 'swap_fail', 'rmcwd', 'chdir']
 
 
 def _o_filter(case):
